@@ -76,6 +76,13 @@ claimed.update({
    technique="explicit enumeration of construction spaces through the real writer/reader against a triple-set model",
    design="5/C01"),
 })
+claimed.update({
+ "C02": dict(
+   text="Bounded exhaustive exploration of the CycloneDX 1.4/1.5 write->read round trip on the real writer and reader: every labelled containment tree with a fixed root and <=4 (thorough 5) further nodes in both edge encodings and every permutation of the stored edge list, complete per-version enum sweeps (hash algorithms on nodes and references, all external-reference types with native/degrade-to-other expectation, purposes, kinds, lifecycles, document versions) and every set of <=2 (thorough 3) attribute deviations on root and child, against a parent-function model and a per-attribute comparison; serial number, version and lifecycles preserved; second pass changes nothing.",
+   note="Trusted: parent-function reference, native/1.5-only tables written from the CycloneDX spec. Two known findings (licence list truncation, document name mapped onto the root name).",
+   technique="explicit enumeration of all small trees x encodings x edge permutations x versions through the real writer/reader",
+   design="5/C02"),
+})
 pending = {}
 all_ids = ["C%02d" % i for i in range(1, 21)]
 checks = []
